@@ -56,7 +56,7 @@ func c0102Child(mode string) mon.ChildFunc {
 		if mode == "C02" {
 			ks = []int{1, 2, 5, 50, participle.MaxLookahead, -1}
 		}
-		for gi, h := range gram.Registry {
+		for gi, h := range gram.WithSubHandles(4) {
 			gp := buildAll(h, ks, gi%3 == 1)
 			if gp.err != nil {
 				c.Feature("grammars_not_built")
